@@ -1,8 +1,10 @@
 (* C17 - A client never waits on a dead server.
    Model: Model/Client.v (pygls/client.py start_io / _server_exit / stop, and the reader task
    pygls/io_.py run_async at the end of the server's output), in the target state of the
-   repository: row 9 (run_async: IncompleteReadError / ConnectionError -> break) and row 6
-   (start_io hands the wrapped _report_server_error to run_async) applied.
+   repository: row 9 (run_async: IncompleteReadError / ConnectionError -> break), row 6
+   (start_io hands the wrapped _report_server_error to run_async) and notes/fix_C17_2.patch
+   (_server_exit cancels handler tasks found in the table instead of calling set_exception on
+   them) applied.
    The statement quantifies over every history h during which the server is alive, every exit
    code, every way the byte stream can end (clean / cut header / cut body / junk), and every
    continuation `rest` in which the exit watcher and the reader task get to run - in either
@@ -44,7 +46,7 @@ Proof.
   destruct (client_exit c h rc t rest G A HX HR) as (F & Hh & Hs & Ho).
   split; [|split; [|split; [|split; [|split]]]]; try assumption.
   - intros i Hi. destruct (F i Pending Hi) as (st & B1 & B2 & _). eauto.
-  - intros i Hi Q NC. apply exit_fails_all_outstanding; try assumption. apply (needs_in c), HX.
+  - intros i Hi Q NC. apply exit_fails_all_outstanding; try assumption; [apply G|apply (needs_in c), HX].
   - intros i st Hi D. destruct (F i st Hi) as (st' & B1 & _ & B3). rewrite <- (B3 D). exact B1.
 Qed.
 Print Assumptions C17.
@@ -82,7 +84,7 @@ Proof. vm_compute. reflexivity. Qed.
 (* row 9: the server dies inside a body -> the reader task dies with IncompleteReadError and
    stop() re-raises it *)
 Theorem C17_pinned_refuted_eof :
-  let c := {| fix_eof := false; fix_wrap := true; hook := HookOk; errhook_raises := false |} in
+  let c := {| fix_eof := false; fix_wrap := true; fix_task := true; hook := HookOk; errhook_raises := false |} in
   exists h rc t rest,
     proc (run c h) = Alive /\ (needs c <= count_xtask rest)%nat /\ In ReaderRun rest /\
     stop_outcome (run c (h ++ ProcExit rc t :: rest)) = StopRaises ExIncompleteRead.
@@ -93,7 +95,7 @@ Qed.
 (* row 6: a complete frame that cannot be handled, with a report_server_error override that
    raises -> the reader task dies with the hook's exception and stop() re-raises it *)
 Theorem C17_pinned_refuted_errhook :
-  let c := {| fix_eof := true; fix_wrap := false; hook := HookOk; errhook_raises := true |} in
+  let c := {| fix_eof := true; fix_wrap := false; fix_task := true; hook := HookOk; errhook_raises := true |} in
   exists h rc t rest,
     proc (run c h) = Alive /\ (needs c <= count_xtask rest)%nat /\ In ReaderRun rest /\
     stop_outcome (run c (h ++ ProcExit rc t :: rest)) = StopRaises ExErrHook.
@@ -101,6 +103,32 @@ Proof.
   exists [Send; SrvWrite BadFrame], 0%Z, TClean, [ReaderRun; ServerExitTask].
   vm_compute. repeat split; auto.
 Qed.
+
+(* the asyncio Task of a coroutine handler serving a request of the server is in the table and not
+   done when the server dies -> Task.set_exception raises, the exit watcher dies in its loop: the
+   requests later in the table are never failed (request 1 below hangs), the hook is not called,
+   stopped is not set and stop() re-raises *)
+Theorem C17_pinned_refuted_handler_task :
+  let c := {| fix_eof := true; fix_wrap := true; fix_task := false; hook := HookOk; errhook_raises := false |} in
+  exists h rc t rest,
+    proc (run c h) = Alive /\ (needs c <= count_xtask rest)%nat /\ In ReaderRun rest /\
+    let s := run c (h ++ ProcExit rc t :: rest) in
+    map snd (futs s) = [FailedExit rc; Pending] /\ hook_calls s = [] /\ stopped s = false /\
+    stop_outcome s = StopRaises ExTaskSetException.
+Proof.
+  exists [Send; SrvWrite (Request 0); ReaderRun; Send], 0%Z, TClean, [ReaderRun; ServerExitTask].
+  vm_compute. repeat split; auto.
+Qed.
+
+(* repaired: the handler task is cancelled instead (cancel requested by the exit watcher, taken
+   when the task next runs; its done-callback removes the table entry), everything else as stated *)
+Example C17_handler_task_cancelled :
+  let c := repaired HookOk false in
+  let s := run c [Send; SrvWrite (Request 0); ReaderRun; Send; ProcExit 0%Z TClean;
+                  ReaderRun; ServerExitTask; HandlerStep 0] in
+  map snd (futs s) = [FailedExit 0%Z; FailedExit 0%Z] /\ htasks s = [(0, HCancelled)] /\
+  rf s = [Own 0; Own 1] /\ hook_calls s = [(0%Z, true)] /\ stop_outcome s = StopReturns.
+Proof. vm_compute. repeat split; reflexivity. Qed.
 
 (* In the pinned code the outcome depends on the schedule: if the exit watcher happens to run
    first the reader leaves through the stop flag and nothing is raised. *)
@@ -125,3 +153,4 @@ Theorem C17_reference_agrees : forall c h rc t rest,
 Proof. exact reference_agrees. Qed.
 Print Assumptions C17_reference_agrees.
 Print Assumptions conv_expect_sound_bounded.
+Print Assumptions conv_expect_sound_bounded_handlers.
